@@ -3,6 +3,7 @@ package c08
 import (
 	"context"
 	"fmt"
+	"k8s.io/client-go/tools/cache"
 	"testing"
 
 	"github.com/deckhouse/deckhouse/pkg/log"
@@ -22,6 +23,8 @@ type Step struct {
 	// Init: an Added delivered from the informer's own initial list (isInInitialList): the object may have
 	// changed since the binding listed it
 	Init bool `json:"init,omitempty"`
+	// Tombstone: a delete delivered as cache.DeletedFinalStateUnknown (client-go saw the deletion through a relist)
+	Tombstone bool `json:"tombstone,omitempty"`
 }
 
 type Case struct {
@@ -129,6 +132,9 @@ func gen(t *rapid.T) Case {
 			Obj:   rapid.SampledFrom(objs).Draw(t, "obj"),
 			State: rapid.IntRange(0, ns-1).Draw(t, "state"),
 		})
+		if st := &c.History[len(c.History)-1]; st.Op == "delete" && rapid.IntRange(0, 2).Draw(t, "tombstone") == 0 {
+			st.Tombstone = true
+		}
 	}
 	return c
 }
@@ -385,7 +391,12 @@ func runCase(c Case) (ev.Info, error) {
 			inf.OnUpdate(old, o)
 			live[s.Obj] = st
 		case "delete":
-			inf.OnDelete(kit.Obj("d", s.Obj, c.States[live[s.Obj]]))
+			gone := kit.Obj("d", s.Obj, c.States[live[s.Obj]])
+			if s.Tombstone {
+				inf.OnDelete(cache.DeletedFinalStateUnknown{Key: "d/" + s.Obj, Obj: gone})
+			} else {
+				inf.OnDelete(gone)
+			}
 			delete(live, s.Obj)
 		}
 		if err := checkSnapshot(i); err != nil && failure == nil {
@@ -425,7 +436,7 @@ func runCase(c Case) (ev.Info, error) {
 	return info, failure
 }
 
-const rule = "one informer of a real monitor on a fake cluster, unlocked, driven through OnAdd/OnUpdate/OnDelete with generated per-object histories over a pool of 2-5 generated object states (repeats, changes outside the projection, delete and re-add, re-delivery of Added for listed objects - also flagged as coming from the informer's own initial list, possibly in a newer state -, resync), executeHookOnEvent all subsets plus default, jqFilter from a pool of object/array/scalar/null-valued single-output expressions or none; oracle: trigger <=> type listed and (Deleted or independently computed projection differs from the last known), and every snapshot shows the latest state. Non-trivial: one object had both a suppressed and a delivered Modified. Distinct = distinct cases."
+const rule = "one informer of a real monitor on a fake cluster, unlocked, driven through OnAdd/OnUpdate/OnDelete with generated per-object histories over a pool of 2-5 generated object states (repeats, changes outside the projection, delete (also delivered as a DeletedFinalStateUnknown tombstone) and re-add, re-delivery of Added for listed objects - also flagged as coming from the informer's own initial list, possibly in a newer state -, resync), executeHookOnEvent all subsets plus default, jqFilter from a pool of object/array/scalar/null-valued single-output expressions or none; oracle: trigger <=> type listed and (Deleted or independently computed projection differs from the last known), and every snapshot shows the latest state. Non-trivial: one object had both a suppressed and a delivered Modified. Distinct = distinct cases."
 
 func TestInformer(t *testing.T) {
 	ev.Main(t, ev.Spec[Case]{Property: "C08", Part: "informer", Rule: rule, Gen: gen, Run: runCase})
